@@ -88,6 +88,12 @@ static void do_clock(struct paula_state *paula, int cycles)
 	frac &= SMIX_MASK; \
 } while (0)
 
+/* The input is read between two output positions: at low output rates that
+ * can be several samples past the end of the sample, where only the few
+ * samples prepared for interpolation exist. */
+#define PAULA_INPUT() \
+	sptr[pos < (unsigned int)vi->end + 3 ? pos : (unsigned int)vi->end + 3]
+
 #define PAULA_SIMULATION(x) do { \
 	int num_in = vi->paula->remainder / MINIMUM_INTERVAL; \
 	int ministep = step / num_in; \
@@ -95,11 +101,11 @@ static void do_clock(struct paula_state *paula, int cycles)
 	\
 	/* input is always sampled at a higher rate than output */ \
 	for (i = 0; i < num_in - 1; i++) { \
-		input_sample(vi->paula, sptr[pos]); \
+		input_sample(vi->paula, PAULA_INPUT()); \
 		do_clock(vi->paula, MINIMUM_INTERVAL); \
 		UPDATE_POS(ministep); \
 	} \
-	input_sample(vi->paula, sptr[pos]); \
+	input_sample(vi->paula, PAULA_INPUT()); \
 	vi->paula->remainder -= num_in * MINIMUM_INTERVAL; \
 	\
 	do_clock(vi->paula, (int)vi->paula->remainder); \
